@@ -580,6 +580,8 @@ func finalizeOutboundListeners(lb *ListenerBuilder, listenerMap map[listenerKey]
 		l := buildListenerFromEntry(lb, le, fallthroughNetworkFilters)
 		listeners = append(listeners, l)
 	}
+	// listenerMap is a map: order the listeners by name so that the response does not follow map iteration order
+	sort.SliceStable(listeners, func(i, j int) bool { return listeners[i].Name < listeners[j].Name })
 	return listeners
 }
 
